@@ -180,6 +180,47 @@ fn encoding_map_agg(c: &RollCase, obs: &mut Obs) -> CheckResult {
     Ok(())
 }
 
+/// relation 1 for the two-series rolling functions: every combination of NaN / None encodings of
+/// the two inputs, and integer inputs when the data are integer valued and null-free
+fn encoding_rolling2(c: &Roll2Case, obs: &mut Obs) -> CheckResult {
+    use tvh::sut;
+    const S2: [Stat2; 7] = [Stat2::Cov, Stat2::Corr, Stat2::RegxAlpha, Stat2::RegxBeta, Stat2::RegxResidMean, Stat2::RegxResidStd, Stat2::RegxResidSkew];
+    let stat = S2[c.w % 7];
+    let name = format!("ts_v{}", stat.name());
+    let (af, bf): (Vec<f64>, Vec<f64>) = (materialize(&c.x), materialize(&c.y));
+    let (ao, bo): (Vec<Option<f64>>, Vec<Option<f64>>) = (materialize(&c.x), materialize(&c.y));
+    let len = af.len();
+    let run_ff = |out_buf: bool| sut::via_vec(len, out_buf, |buf| sut::roll2::<_, f64, _, f64, Vec<f64>, f64>(&af, &bf, stat, c.w, c.mp, buf));
+    let base = normalize(run_ff(false).map_err(|e| Fail { sig: format!("{}:out-path", name), detail: e })?);
+    let mut variants: Vec<(&str, Series)> = vec![];
+    variants.push(("caller buffer", normalize(run_ff(true).map_err(|e| Fail { sig: format!("{}:out-path", name), detail: e })?)));
+    variants.push(("Option x Option", normalize(sut::via_vec(len, c.out_buf, |buf| sut::roll2::<_, Option<f64>, _, Option<f64>, Vec<f64>, f64>(&ao, &bo, stat, c.w, c.mp, buf)).map_err(|e| Fail { sig: format!("{}:out-path", name), detail: e })?)));
+    variants.push(("f64 x Option", normalize(sut::via_vec(len, c.out_buf, |buf| sut::roll2::<_, f64, _, Option<f64>, Vec<f64>, f64>(&af, &bo, stat, c.w, c.mp, buf)).map_err(|e| Fail { sig: format!("{}:out-path", name), detail: e })?)));
+    variants.push(("Option x f64", normalize(sut::via_vec(len, c.out_buf, |buf| sut::roll2::<_, Option<f64>, _, f64, Vec<f64>, f64>(&ao, &bf, stat, c.w, c.mp, buf)).map_err(|e| Fail { sig: format!("{}:out-path", name), detail: e })?)));
+    variants.push(("Option<f64> output", normalize(sut::via_vec(len, c.out_buf, |buf| sut::roll2::<_, f64, _, f64, Vec<Option<f64>>, Option<f64>>(&af, &bf, stat, c.w, c.mp, buf)).map_err(|e| Fail { sig: format!("{}:out-path", name), detail: e })?)));
+    let int_ok = c.x.iter().chain(c.y.iter()).all(|v| v.map(|x| x.fract() == 0.0 && x.abs() < 1e6).unwrap_or(false));
+    if int_ok {
+        let (ai, bi): (Vec<i32>, Vec<i64>) = (materialize(&c.x), materialize(&c.y));
+        variants.push(("i32 x i64", normalize(sut::via_vec(len, c.out_buf, |buf| sut::roll2::<_, i32, _, i64, Vec<f64>, f64>(&ai, &bi, stat, c.w, c.mp, buf)).map_err(|e| Fail { sig: format!("{}:out-path", name), detail: e })?)));
+        obs.class("integer_valued");
+    }
+    for (what, v) in &variants {
+        if bits(v) != bits(&base) {
+            let i = (0..base.len().min(v.len())).find(|i| bits(v)[*i] != bits(&base)[*i]);
+            return fail(format!("{}:encoding", name), format!("{} (w {}, mp {:?}) with {} differs from f64 x f64 at {:?}: {:?} vs {:?}", name, c.w, c.mp, what, i, i.map(|i| v[i]), i.map(|i| base[i])));
+        }
+    }
+    // f32 output is the rounded f64 output
+    let o32 = normalize(sut::via_vec(len, c.out_buf, |buf| sut::roll2::<_, f64, _, Option<f64>, Vec<f32>, f32>(&af, &bo, stat, c.w, c.mp, buf)).map_err(|e| Fail { sig: format!("{}:out-path", name), detail: e })?);
+    let want32: Series = base.iter().map(|v| v.map(|x| x as f32 as f64)).collect();
+    if bits(&o32) != bits(&want32) {
+        return fail(format!("{}:output-encoding:f32", name), format!("{}: f32 output is not the rounded f64 output", name));
+    }
+    let nulls = c.x.iter().zip(c.y.iter()).filter(|(a, b)| a.is_none() != b.is_none()).count();
+    obs.set_nontrivial(nulls >= 1 && len > c.w);
+    Ok(())
+}
+
 // ---------------------------------------------------------------------------------------------
 // relation 2: null transparency
 
@@ -391,6 +432,7 @@ fn main() {
         encoding_rolling,
     ));
     p.add(sub("encoding:map_agg", 10000, 300000, move |tier| roll_case_of(tier, ins, outs, 30, 120, 1, ALL_CLASSES), encoding_map_agg));
+    p.add(sub("encoding:rolling_two_series", 10000, 300000, |tier| roll2_case(tier, 40, 200, 1), encoding_rolling2));
     p.add(sub("transparency", 12000, 400000, ins_case, transparency));
     main_for(p);
 }
